@@ -227,7 +227,26 @@ pub fn generate(rng: &mut Rng, thorough: bool) -> Vec<Value> {
         }
         let kinds = kinds_of(&msgs);
         let sched = random_schedule(&kinds, rng);
-        out.push(json!({"docs": docs(), "msgs": msgs, "sched": sched, "kind": "random"}));
+        out.push(json!({"docs": docs(), "msgs": msgs.clone(), "sched": sched.clone(), "kind": "random"}));
+        // the same messages sent the way an editor sends them: without waiting for the loop, so that
+        // they queue up in the inbox (the schedule is then only what the model runs: by
+        // C11_computed_from_prefix the answers do not depend on it)
+        if out.len() % 2 == 0 {
+            out.push(json!({"docs": docs(), "msgs": msgs, "sched": sched, "kind": "random-preload", "preload": true}));
+        }
+    }
+    // two edits of one note with a request between them, queued behind a request and an edit of another note
+    for (i, key) in ["a", "b"].iter().enumerate() {
+        let msgs = vec![
+            json!({"t": "req", "id": 1, "key": "c"}),
+            json!({"t": "chg", "key": "c", "text": text("c", 1)}),
+            json!({"t": "chg", "key": key, "text": text(key, 2 + i)}),
+            json!({"t": "req", "id": 4, "key": key}),
+            json!({"t": "chg", "key": key, "text": text(key, 5 + i)}),
+        ];
+        let kinds = kinds_of(&msgs);
+        let sched = random_schedule(&kinds, rng);
+        out.push(json!({"docs": docs(), "msgs": msgs, "sched": sched, "kind": "queued-edits", "preload": true}));
     }
     out
 }
@@ -316,7 +335,28 @@ pub fn execute(v: &Value) -> String {
     let mut drops: Vec<usize> = vec![];
     let mut realised = true;
 
+    let preload = v["preload"].as_bool() == Some(true);
+    if preload {
+        // the first message alone (a request is held at its start, so that a following notification makes
+        // the loop wait), then everything else at once; after that nothing is held back
+        if let Some(m) = msgs.get(0) {
+            send_msg(&srv, m);
+            if m["t"].as_str() == Some("req") { live.push(0); let _ = srv.wait_at(id_at(0), &[Point::Start], STEP_LIMIT); }
+            else { let _ = srv.wait_note_begin(STEP_LIMIT); if let Some(true) = srv.wait_note_end(STEP_LIMIT) { drops.push(0); } }
+        }
+        for m in msgs.iter().skip(1) { send_msg(&srv, m); }
+        std::thread::sleep(Duration::from_millis(150));
+        srv.free_run();
+        for (p, m) in msgs.iter().enumerate().skip(1) {
+            if m["t"].as_str() == Some("req") { live.push(p); }
+            else {
+                if !srv.wait_note_begin(STEP_LIMIT) { realised = false; break; }
+                match srv.wait_note_end(Duration::from_secs(20)) { Some(true) => drops.push(p), Some(false) => {}, None => { realised = false; break; } }
+            }
+        }
+    }
     for l in &sched {
+        if preload { break; }
         let ok = if l == "T" {
             let Some(m) = msgs.get(taken) else { realised = false; break };
             let p = taken;
